@@ -130,7 +130,7 @@ class FullCampaign(object):
 
     def gen_opts(self):
         from . import common
-        return gen.GenOpts(cpp_full_ok=True, avoid=common.avoid_set(self.prop), big_sizes=False, tail_focus=3, alias_focus=4, block_focus=6, tiny_focus=5)
+        return gen.GenOpts(cpp_full_ok=True, avoid=common.avoid_set(self.prop), big_sizes=False, tail_focus=3, alias_focus=4, block_focus=6, tiny_focus=5, oddunion_focus=4, smallopt_focus=4)
 
     def vectors(self, rw, py, tname, val):
         raise NotImplementedError
